@@ -1477,6 +1477,16 @@ def run_property(ctx, prop, monitor, gen_kwargs, n_quick, n_thorough, replay=Non
     rnd = random.Random(ctx.seed)
     if replay:
         rp = json.load(open(replay))
+        if str(rp.get("mode", "")).startswith("pfcp (refused-removal"):
+            # a history of the monitor-only phase (the data plane refuses a removal: not a model event)
+            from checks import rmfail_phase
+            res, err = common.run_harness(ctx, info["harness"], "pfcp", [rp["case"]], timeout=120, tag="-replay")
+            f = rmfail_phase.monitor(prop, rp["case"], res["cases"][0], res["prefix"]) if res else [(0, "harness run failed: %s" % (err or "")[-300:])]
+            coverage["evaluations"] = 1
+            if f:
+                ctx.violation({"property": prop, "what": f[0][1], "all_failures": f[:5], "mode": rp["mode"], "case": rp["case"],
+                               "implementation_trace": res["cases"][0] if res else None})
+            return ctx.finish(coverage, assumptions)
         cases = [rp["case"] if "case" in rp else rp["first_disagreement"]["case"]]
     else:
         gk = dict(gen_kwargs)
